@@ -3,13 +3,13 @@ CONSTANTS
   Kind = "provider"
   Starts <- StartsAll
   Certs <- BoolBoth
-  Tmpls <- TmplPlain
-  Drc0 <- DrcNamed
+  Tmpls <- TmplBoth
+  Drc0 <- DrcAll
   EnvKinds <- EnvSeq
-  Interf <- InterfDeps
+  Interf <- InterfAll
   MaxEdits = 2
   MaxFaults = 1
-  MaxRecs = 2
+  MaxRecs = 3
   MaxNest = 0
   MidEnv = FALSE
   GuardInactive = TRUE
